@@ -275,6 +275,7 @@ def run(ctx):
               'LoadDepFile answers "no usable depfile" (nullopt, edge dirty) for an empty depfile')
     ctx.floor('C07.O3', 8)
     check_signal_table(ctx)
+    check_spawn_attributes(ctx)
 
 
 INTERRUPT_SIGNALS = {2: 'SIGINT', 15: 'SIGTERM', 1: 'SIGHUP'}        # the three the statement names (Linux numbering)
@@ -391,3 +392,66 @@ def is_field_name(d, name):
     d = strip(d)
     return isinstance(d, dict) and d.get('k') in ('mem', 'var', 'glob') and (d.get('n') == name or d.get('n', '').endswith(name.split('::')[-1]) and
                                                                          name.split('::')[-1] in d.get('n', ''))
+
+
+def check_spawn_attributes(ctx):
+    """C07.P1: how a child is started decides whether the interrupt path can stop it."""
+    prog = ctx.prog
+    ctx.rule('C07.P1', 'G', 'Subprocess::Start: a non-console child gets its own process group (POSIX_SPAWN_SETPGROUP - '
+             'SubprocessSet::Clear() signals -pid), every child starts with the signal mask ninja had before it blocked the interrupt '
+             'signals (POSIX_SPAWN_SETSIGMASK with old_mask_, so the child can be interrupted at all), the flags reach '
+             'posix_spawnattr_setflags unchanged, and the parent closes its copy of the pipe\'s write end after the spawn (otherwise '
+             'the end of the output, i.e. the completion of the command, is never seen)')
+    st = prog.fn('Subprocess::Start')
+    sf = list(st.calls('posix_spawnattr_setflags'))
+    sp = [e for e in st.events('call') if e.get('name') in ('posix_spawn', 'posix_spawnp')]
+    if len(sf) != 1 or len(sp) != 1:
+        raise AnalysisBroken('C07.P1: posix_spawnattr_setflags / posix_spawn call of Subprocess::Start not found (%d / %d)' % (len(sf), len(sp)))
+    fv = strip(sf[0]['args'][1])
+    ctx.check('C07.P1', isinstance(fv, dict) and fv.get('k') == 'var', st.name, 'spawn:flags-not-a-variable', st.where(sf[0]),
+              'the flags handed to posix_spawnattr_setflags are the accumulated variable (%s)' % dstr(fv))
+    name = fv.get('n') if isinstance(fv, dict) else None
+    ors = [e for e in st.events('asg') if is_var(name or '?')(e['l'])]
+    bad = [e for e in ors if e['op'] not in ('|=',) or not isinstance(const_value(e.get('r')), int)]
+    ctx.check('C07.P1', not bad, st.name, 'spawn:flags-rewritten', st.where(bad[0]) if bad else st.loc,
+              'the flag variable only ever gains constant bits (no assignment / &= that could drop one)')
+
+    def console(pol):
+        def ok(b, i, s2):
+            for key, p, atom in st.edge_facts(b, i, all=True):
+                a = strip(atom)
+                if isinstance(a, dict) and a.get('k') == 'mem' and a['n'] == 'Subprocess::use_console_' and p != pol:
+                    return False
+            return True
+        return ok
+    for bit, nm, worlds in ((2, 'POSIX_SPAWN_SETPGROUP', (False,)), (8, 'POSIX_SPAWN_SETSIGMASK', (False, True))):
+        sets = [e for e in ors if isinstance(const_value(e.get('r')), int) and const_value(e['r']) & bit]
+        for w in worlds:
+            r = st.find_path(None, lambda x: x is sf[0], from_succ=st.entry, is_blocker=lambda x: any(x is y for y in sets), edge_ok=console(w))
+            ctx.check('C07.P1', bool(sets) and r is None, st.name, 'spawn:%s-missing:%s' % (nm, 'console' if w else 'piped'), st.where(sf[0]),
+                      '%s is set on every path to posix_spawnattr_setflags for a %s child' % (nm, 'console' if w else 'non-console'),
+                      witness=None if r is None else {'blocks': r[0]})
+    # a console child shares ninja's process group (it must receive the terminal's ctrl-c itself): the bit is not set for it
+    pg = [e for e in ors if isinstance(const_value(e.get('r')), int) and const_value(e['r']) & 2]
+    for e in pg:
+        guarded(ctx, 'C07.P1', st, e, lambda a: mentions_field(a, 'Subprocess::use_console_'), False,
+                'only non-console children leave ninja\'s process group', construct='spawn:SETPGROUP-for-console')
+    sm = list(st.calls('posix_spawnattr_setsigmask'))
+    ctx.check('C07.P1', len(sm) == 1 and mentions_field(sm[0]['args'][1], 'SubprocessSet::old_mask_') and st.dominates_ev(sm[0], sp[0]), st.name,
+              'spawn:sigmask-not-old-mask', st.where(sm[0]) if sm else st.loc, 'the child\'s signal mask is SubprocessSet::old_mask_')
+    ctx.check('C07.P1', st.dominates_ev(sf[0], sp[0]), st.name, 'spawn:flags-after-spawn', st.where(sf[0]), 'the flags are installed before posix_spawn')
+    # the write end: created by pipe(), dup'ed onto 1 and 2 in the child, closed in the parent after the spawn
+    closes = [e for e in st.events('call') if e.get('name') == 'close']
+    wr = None
+    for e in st.events('call'):
+        if e.get('name') == 'posix_spawn_file_actions_adddup2':
+            v = strip(e['args'][1])
+            if isinstance(v, dict) and v.get('k') == 'var':
+                wr = v['n']
+    ctx.check('C07.P1', wr is not None, st.name, 'spawn:write-end-not-found', st.loc, 'the pipe\'s write end is dup\'ed into the child (%s)' % wr)
+    mine = [e for e in closes if wr and is_var(wr)(e['args'][0])]
+    r = st.find_path(sp[0], lambda x: x['k'] == 'ret', is_blocker=lambda x: any(x is y for y in mine), edge_ok=console(False))
+    ctx.check('C07.P1', bool(mine) and r is None, st.name, 'spawn:write-end-kept-open', st.where(sp[0]),
+              'after the spawn the parent closes its copy of the write end on every path (non-console child)',
+              witness=None if r is None else {'blocks': r[0]})
+    ctx.floor('C07.P1', 10)
